@@ -176,6 +176,25 @@ struct Cfg {
     vacuity_probe: bool,
 }
 
+/// does the closure body contain a `return` or `?` of its own (not inside a nested closure / item)?
+/// Such a body cannot be written out inline: the jump would leave the enclosing function.
+fn leaves_closure(body: &Expr) -> bool {
+    struct V(bool);
+    impl<'ast> Visit<'ast> for V {
+        fn visit_expr_return(&mut self, _r: &'ast ExprReturn) {
+            self.0 = true;
+        }
+        fn visit_expr_try(&mut self, _r: &'ast ExprTry) {
+            self.0 = true;
+        }
+        fn visit_expr_closure(&mut self, _c: &'ast ExprClosure) {}
+        fn visit_item(&mut self, _i: &'ast Item) {}
+    }
+    let mut v = V(false);
+    v.visit_expr(body);
+    v.0
+}
+
 /// A1: parameter names, then `let` / `for` / `if let` / match-arm bound names, in source order
 fn fn_locals(sig: &Signature, block: Option<&Block>) -> Vec<String> {
     struct L {
@@ -850,6 +869,16 @@ impl<'a, 'b, 'ast> Visit<'ast> for BodyV<'a, 'b> {
                         let whole = range_of(e);
                         let body = range_of(&*c.body);
                         let f = if awaited { "awaited" } else { "spawned" };
+                        // a `return` inside the task body leaves the CLOSURE, which an inlined block
+                        // cannot express: the task is then treated as unspecified (its result and
+                        // its effect on the file system are unconstrained)
+                        if leaves_closure(&c.body) {
+                            let arg = if self.world == "mut" { "Tracked(w)" } else { "crate::shims::ro_violation_world()" };
+                            self.fc.edit(whole.0, whole.1, format!("crate::shims::async_std::task::{f}({{ crate::shims::havoc_world({arg}); crate::shims::arbitrary() }})"), "R8.spawn_blocking.opaque");
+                            self.fc.degraded.push(format!("unit {}: the body of a spawn_blocking task contains `return` or `?`: task treated as unspecified", self.outer_name));
+                            self.note_call("spawn_blocking");
+                            return;
+                        }
                         self.fc.edit(whole.0, body.0, format!("crate::shims::async_std::task::{f}("), "R8.spawn_blocking");
                         self.fc.edit(body.1, whole.1, ")", "R8.spawn_blocking");
                         self.note_call("spawn_blocking");
@@ -958,7 +987,7 @@ impl<'a, 'b, 'ast> Visit<'ast> for BodyV<'a, 'b> {
                     IdentScan { out: &mut is }.visit_expr(&c.body);
                     is.iter().any(|n| self.fc.extra_eff.get(n).map(|m| m.starts_with("mut")).unwrap_or(false))
                 };
-                if (sc.mode == 2 || ext_mut) && c.asyncness.is_none() && c.inputs.len() <= 1 && self.world == "mut" {
+                if (sc.mode == 2 || ext_mut) && c.asyncness.is_none() && c.inputs.len() <= 1 && self.world == "mut" && !leaves_closure(&c.body) {
                     let whole = range_of(e);
                     let recv = range_of(&*e.receiver);
                     let body = range_of(&*c.body);
